@@ -299,6 +299,7 @@ Qed.
    forces ErrBufferFull continuation; data delivered together with io.EOF *)
 Example split_chunked_nonvacuous :
   Forall nonempty [[97]; [98; 99; 10; 100]; [101]; [10]] /\
+  concat [[97]; [98; 99; 10; 100]; [101]; [10]] = SplitSpec.encode 10 [[97; 98; 99]; [100; 101]] /\
   crecv_all cfg_fixed false 10 [[97]; [98; 99; 10; 100]; [101]; [10]] = [IRec [97; 98; 99]; IRec [100; 101]; IErr EEOF] /\
   crecv_all cfg_fixed true 10 [[97]; [98]; [99]; [10]; [100]] = [IRec [97; 98; 99]; IRecErr [100] EEOF; IErr EEOF] /\
   forget (crecv_k cfg_fixed true 10 3 (tt, rinit [[97; 98]; [99; 100; 101; 102]; [103; 10; 104]]) [])
